@@ -185,6 +185,11 @@ pub struct E2eCase {
     /// stagger delay (happy-eyeballs timeout 1.2 s / number of addresses) - in the sorted order.
     #[serde(default)]
     pub hang: Vec<bool>,
+    /// the bound local address of that family cannot be assigned on this machine (192.0.2.1 /
+    /// 2001:db8::1): every attempt of the family fails while its socket is prepared - a failure of that
+    /// one candidate, after which the next address is tried
+    #[serde(default)]
+    pub unassignable: (bool, bool),
 }
 
 /// candidate loopback addresses: three IPv4, one IPv6, two IPv4-mapped IPv6
@@ -360,8 +365,8 @@ impl E2eEngine {
             cfg.happy_eyeballs_timeout = Some(he_timeout);
             cfg.happy_eyeballs_concurrency = Some(1);
             cfg.connect_timeout = if case.no_connect_timeout { None } else { Some(std::time::Duration::from_secs(2)) };
-            cfg.local_address_ipv4 = case.bound.0.then_some(if case.wildcard.0 { Ipv4Addr::UNSPECIFIED } else { Ipv4Addr::LOCALHOST });
-            cfg.local_address_ipv6 = case.bound.1.then_some(if case.wildcard.1 { Ipv6Addr::UNSPECIFIED } else { Ipv6Addr::LOCALHOST });
+            cfg.local_address_ipv4 = case.bound.0.then_some(if case.unassignable.0 { Ipv4Addr::new(192, 0, 2, 1) } else if case.wildcard.0 { Ipv4Addr::UNSPECIFIED } else { Ipv4Addr::LOCALHOST });
+            cfg.local_address_ipv6 = case.bound.1.then_some(if case.unassignable.1 { "2001:db8::1".parse().unwrap() } else if case.wildcard.1 { Ipv6Addr::UNSPECIFIED } else { Ipv6Addr::LOCALHOST });
             let transport: TcpTransport<ListResolver, TcpStream> =
                 TcpTransport::builder().with_config(cfg).with_resolver(ListResolver(answer.clone())).build();
             let uri: http::Uri = format!("http://verif.test:{port}/").parse().unwrap();
@@ -381,12 +386,19 @@ impl E2eEngine {
             // a bound local IPv6 address (::1) cannot reach an IPv4-mapped destination and vice
             // versa; such destinations count as dead for the expectation
             let reachable = |a: &SocketAddr| -> bool {
+                // an unassignable local address fails every attempt of its family
+                if (a.is_ipv4() && case.bound.0 && case.unassignable.0) || (a.is_ipv6() && case.bound.1 && case.unassignable.1) {
+                    return false;
+                }
                 match a.ip() {
                     // (a socket bound to the IPv6 wildcard is dual-stack and does reach them)
                     IpAddr::V6(v6) if v6.to_ipv4_mapped().is_some() => !case.bound.1 || case.wildcard.1,
                     _ => true,
                 }
             };
+            if (case.bound.0 && case.unassignable.0) || (case.bound.1 && case.unassignable.1) {
+                rep.class("unassignable-local-address");
+            }
             let is_hang = |a: &SocketAddr| tab.iter().position(|t| *t == a.ip()).map(|i| hanging(i)).unwrap_or(false) && reachable(a);
             let expected = order.iter().find(|a| is_live(a) && reachable(a)).copied();
             // every hanging address in front of the expected one costs one stagger delay
@@ -462,8 +474,9 @@ pub fn e2e_strategy() -> impl proptest::strategy::Strategy<Value = E2eCase> {
         (any::<bool>(), any::<bool>()),
         any::<bool>(),
         prop_oneof![3 => Just(vec![]), 1 => proptest::collection::vec(any::<bool>(), 6)],
+        prop_oneof![4 => Just((false, false)), 1 => Just((true, false)), 1 => Just((false, true))],
     )
-        .prop_map(|(addrs, live, bound, wildcard, no_connect_timeout, hang)| E2eCase { addrs, live, bound, wildcard, no_connect_timeout, hang })
+        .prop_map(|(addrs, live, bound, wildcard, no_connect_timeout, hang, unassignable)| E2eCase { addrs, live, bound, wildcard, no_connect_timeout, hang, unassignable })
 }
 
 // ------------------------------------------------------------------------------------------------
